@@ -189,12 +189,11 @@ def int_bytes_axioms():
 
 
 def pow2_axioms():
-    a, b = z3.Ints('a b')
+    """2**a for a >= 0.  Only linear facts are given as axioms; the product law
+    pow2(a+b) = pow2(a)*pow2(b) is supplied as ground hints where a proof needs it."""
+    a = z3.Int('a')
     ax = [pow2(0) == 1, pow2(1) == 2, pow2(8) == 256]
     ax.append(_fa([a], z3.Implies(a >= 0, pow2(a) >= 1), [pow2(a)]))
-    ax.append(_fa([a, b], z3.Implies(z3.And(a >= 0, b >= 0), pow2(a + b) == pow2(a) * pow2(b)),
-                  [z3.MultiPattern(pow2(a), pow2(b))]))
-    ax.append(_fa([a], z3.Implies(a >= 1, pow2(a) == 2 * pow2(a - 1)), [pow2(a)]))
     return ax
 
 
